@@ -600,7 +600,11 @@ class Engine:
         if isinstance(cur, Ref) and isinstance(st.get(cur), ArrData):
             # in-place array op: the object is mutated (aliases see it)
             new = self.binop(s.op, cur, v, st)
-            st.put(cur, st.get(new))
+            if isinstance(new, Ref):
+                st.put(cur, st.get(new))
+            else:
+                d = st.get(cur)
+                st.put(cur, ArrData(d.shape, fresh_sel("aug", d.kind, d.ndim), d.kind))   # unknown operand: contents unknown
             return [Outcome("normal", st)]
         self.assign(s.target, self.binop(s.op, cur, v, st), st)
         return [Outcome("normal", st)]
@@ -1146,7 +1150,9 @@ class Engine:
                 raise Unsupported("** of unknown dict in literal")
             kk = self.eval(k, st)
             if not isinstance(kk, str):
-                raise Unsupported("dict literal with non-str key")
+                for vv in e.values:
+                    self.eval(vv, st)
+                return Opaque("dict")
             items[kk] = self.eval(v, st)
         return st.alloc(DictData(items))
 
@@ -1203,10 +1209,10 @@ class Engine:
         return self.binop(e.op, self.eval(e.left, st), self.eval(e.right, st), st)
 
     def binop(self, op, l, r, st):
-        if isinstance(l, Opaque) or isinstance(r, Opaque):
-            return Opaque("binop")
         if isinstance(l, Ref) or isinstance(r, Ref):
             return self.lib.array_binop(self, op, l, r, st)
+        if isinstance(l, Opaque) or isinstance(r, Opaque):
+            return Opaque("binop")
         if isinstance(l, GlobalName) or isinstance(r, GlobalName):
             return Opaque("binop-global")
         return scalar_binop(op, l, r, st)
@@ -1519,7 +1525,7 @@ class Engine:
         if target in self.inline or name in self.inline or "*" in self.inline:
             outs = self.run_function(m, st, [recv] + args, kwargs, cls=ci.name)
             return self.join_call(outs, st)
-        return self.unknown_call(target, [recv] + args, kwargs, st, node)
+        return self.unknown_call(target, [recv] + args, kwargs, st, node, summary=self.frame_summary(target, m, args, kwargs))
 
     def call_named(self, name, args, kwargs, st, node):
         h = self.lib.function(name) if self.lib else None
@@ -1530,12 +1536,40 @@ class Engine:
             rel, fn = self.repo.func_by_name[short][0]
             outs = self.run_function(fn, st, args, kwargs, cls=None)
             return self.join_call(outs, st)
-        return self.unknown_call(name, args, kwargs, st, node)
+        summ = None
+        if "." not in name and short in self.repo.func_by_name and len(self.repo.func_by_name[short]) == 1:
+            rel, fn = self.repo.func_by_name[short][0]
+            summ = self.frame_summary(short + "@" + rel, fn, args, kwargs, skip_self=False)
+        return self.unknown_call(name, args, kwargs, st, node, summary=summ)
 
-    def unknown_call(self, name, args, kwargs, st, node):
-        """A call without contract: result unknown, every mutable argument may have been changed."""
+    def frame_summary(self, qual, fn, args, kwargs, skip_self=True):
+        """values among the arguments that the package callee may mutate, according to the L1 frame analysis
+        (pyvc/frame.py summaries, computed from the same source): everything else is left untouched by the call"""
+        A = getattr(self, "frame", None)
+        if A is None:
+            return None
+        s = A.summaries.get(qual)
+        if s is None:
+            return None
+        mutated = []
+        pos = s.pos_params
+        for i, a in enumerate(args):
+            if i < len(pos) and pos[i] in s.mutates:
+                mutated.append(a)
+            elif i >= len(pos):
+                mutated.append(a)
+        for k, v in kwargs.items():
+            if k in s.mutates or k not in s.params:
+                mutated.append(v)
+        self.abstracted.add(f"frame-summary:{qual} mutates {sorted(s.mutates)}")
+        return mutated
+
+    def unknown_call(self, name, args, kwargs, st, node, summary=None):
+        """A call without contract: result unknown, every mutable argument may have been changed
+        (unless the L1 frame summary of a package callee says which arguments it can mutate)."""
         self.abstracted.add(name)
-        for a in list(args) + list(kwargs.values()):
+        cand = list(args) + list(kwargs.values()) if summary is None else summary
+        for a in cand:
             if isinstance(a, Ref):
                 d = st.get(a)
                 if isinstance(d, ArrData):
